@@ -493,6 +493,9 @@ def external(it, qual: str):
         if name == "NamedTuple":
             return bc["NamedTuple"]
         return ExtVal(qual)
+    if qual == "collections.deque":
+        from .values import Deque
+        return Builtin("collections.deque", lambda xs=(): Deque(it.iterate(xs)))
     if mod == "dataclasses":
         if name == "replace":
             return Builtin("dataclasses.replace", lambda o, **ch: dc_replace(it, o, ch))
